@@ -2,7 +2,7 @@
 """import_r2.py <confirm.tsv> [round]: copies confirmed changes of round r2 (default) / r3 from /tmp/wt/<round>-<Cnn>-out into /verif/seeded/<id>/."""
 import sys,json,os,shutil
 rnd=sys.argv[2] if len(sys.argv)>2 else 'r2'
-prev={'r2':'two round-1 changes','r3':'four earlier changes'}[rnd]
+prev={'r2':'two round-1 changes','r3':'four earlier changes','r4':'six earlier changes'}[rnd]
 for line in open(sys.argv[1]):
     f=line.strip().split('\t')
     if len(f)<7: continue
